@@ -354,7 +354,7 @@ Proof.
     (rest := wj :: map w post ++ rest) as (r1 & Hf1 & A1 & B1 & C1 & D1).
   { intros nb Hin. split; [intros ->; contradiction|]. split.
     - destruct (idx_app_in nb pre (next :: post) Hin) as (i & Ei & Hi).
-      exists i. rewrite neighbour_index_nbs, Hnbs. split; [exact Ei|]. split; [lia|].
+      exists i. rewrite neighbour_index_nbs, Hnbs. split; [exact Ei|]. unfold id in *. split; [lia|].
       destruct (Nat.ltb_spec (length pre) i); [lia|reflexivity].
     - apply Hblk. apply in_or_app. left. exact Hin. }
   { reflexivity. }
@@ -370,11 +370,127 @@ Proof.
         destruct Hp as [->|Hp]; [apply Hni; apply in_or_app; right; exact Hin|apply IH; assumption]. }
       destruct (idx_in nb post Hin) as [i Ei].
       exists (length pre + S i). rewrite neighbour_index_nbs, Hnbs. rewrite idx_app_notin by exact Hnp. cbn [index_of].
-      destruct (Nat.eqb_spec nb next) as [->|_]; [contradiction|]. rewrite Ei. cbn. split; [reflexivity|]. split; [lia|].
+      destruct (Nat.eqb_spec nb next) as [->|_]; [contradiction|]. rewrite Ei. cbn [option_map]. unfold id in *. split; [reflexivity|]. split; [lia|].
       destruct (Nat.ltb_spec (length pre) (length pre + S i)); [reflexivity|lia].
     - apply Hblk. apply in_or_app. right. exact Hin. }
   { reflexivity. }
   { rewrite A1. cbn [app]. rewrite <- !app_assoc. reflexivity. }
   exists r2. split; [exact Hf2|]. rewrite A2, B2, C2, D2, B1, C1, D1.
   rewrite !flat_map_app, map_app, rev_app_distr. cbn [app]. rewrite <- !app_assoc. auto.
+Qed.
+
+(* ==== (1b) contract_bra_tensor_ignore_one_leg: independent child orders ============================================================= *)
+(* positions of the neighbours other than `next`, read in the ket order, inside the bra's own order *)
+Lemma NoDup_app_one {A} (l : list A) x : NoDup l -> ~ In x l -> NoDup (l ++ [x]).
+Proof.
+  intros H1 H2. apply (Permutation_NoDup (l := x :: l)); [|constructor; assumption].
+  apply Permutation_cons_append.
+Qed.
+
+Lemma in_mid_other {A} (x y : A) a b : In y (a ++ x :: b) -> y <> x -> In y (a ++ b).
+Proof. intros H Hne. apply in_app_or in H. apply in_or_app. destruct H as [H|[H|H]]; [left; exact H|congruence|right; exact H]. Qed.
+
+Lemma in_mid_intro {A} (x y : A) a b : In y (a ++ b) -> In y (a ++ x :: b).
+Proof. intros H. apply in_app_or in H. apply in_or_app. destruct H; [left|right; right]; assumption. Qed.
+
+Theorem bra_to_ket_ignore_axes bt kb bn kn next (x : id -> wire) wj o p pre post :
+  neighbouring_nodes kn = pre ++ next :: post ->
+  NoDup (pre ++ next :: post) ->
+  Permutation (neighbouring_nodes bn) (pre ++ next :: post) ->
+  gaxes kb = wj :: o :: map x (pre ++ post) ->
+  gaxes bt = map x (neighbouring_nodes bn) ++ [p] ->
+  o <> p ->
+  exists r, bra_to_ket_ignore bt kb bn kn next = Some r /\
+    gaxes r = [wj; x next] /\
+    gatoms r = gatoms kb ++ gatoms bt /\
+    gbnd r = map x (pre ++ post) ++ gbnd kb ++ gbnd bt /\
+    gglue r = (o, p) :: gglue kb ++ gglue bt.
+Proof.
+  intros Hnbs Hnd Hperm Hkb Hbt Hop.
+  destruct (NoDup_mid_notin _ _ _ Hnd) as (Hnpre & Hnpost & Hnd').
+  set (L := pre ++ post) in *.
+  set (nb_b := neighbouring_nodes bn) in *.
+  assert (HndB : NoDup nb_b) by (eapply Permutation_NoDup; [symmetry; exact Hperm|exact Hnd]).
+  assert (HinB : forall y, In y nb_b <-> In y (pre ++ next :: post)).
+  { intros y. split; apply Permutation_in; [exact Hperm|symmetry; exact Hperm]. }
+  assert (HnextL : ~ In next L).
+  { unfold L. intros H. apply in_app_or in H. destruct H; contradiction. }
+  assert (HLB : forall y, In y L -> In y nb_b).
+  { intros y Hy. apply HinB. apply in_mid_intro. exact Hy. }
+  assert (HlenB : length nb_b = S (length L)).
+  { unfold L. rewrite (Permutation_length Hperm), !app_length. cbn. lia. }
+  assert (HnextB : In next nb_b) by (apply HinB; apply in_or_app; right; left; reflexivity).
+  destruct (pos_in_spec nb_b next HnextB) as (_ & Hjb & Hjbn).
+  set (jb := pos_in nb_b next) in *.
+  unfold bra_to_ket_ignore.
+  rewrite neighbour_index_nbs, Hnbs, idx_mid by exact Hnpre.
+  rewrite filter_neq_mid by assumption. unfold id, wire in *. fold L.
+  (* ket positions *)
+  assert (Hkis : all_some (map (neighbour_index kn) L) = Some (seq 0 (length pre) ++ seq (S (length pre)) (length post))).
+  { unfold L. rewrite map_app. apply all_some_app.
+    - rewrite (map_ext _ (fun nb => index_of nb ([] ++ pre ++ next :: post))).
+      + apply (all_some_idx_seq [] pre (next :: post)). exact Hnd.
+      + intros a. rewrite neighbour_index_nbs, Hnbs. reflexivity.
+    - rewrite (map_ext _ (fun nb => index_of nb ((pre ++ [next]) ++ post ++ []))).
+      + replace (S (length pre)) with (length (pre ++ [next])) by (rewrite app_length; cbn; lia).
+        apply (all_some_idx_seq (pre ++ [next]) post []).
+        rewrite app_nil_r, <- app_assoc. exact Hnd.
+      + intros a. rewrite neighbour_index_nbs, Hnbs, app_nil_r, <- app_assoc. reflexivity. }
+  rewrite Hkis.
+  (* bra positions *)
+  assert (Hbis : all_some (map (neighbour_index bn) L) = Some (map (pos_in nb_b) L)).
+  { apply all_some_total. intros a Ha. rewrite neighbour_index_nbs. apply pos_in_spec. apply HLB. exact Ha. }
+  rewrite Hbis.
+  (* the ket-side legs are 2, 3, ..., then 1 *)
+  assert (Hlegs : map (fun ki => ki + 1 + (if Nat.ltb ki (length pre) then 1 else 0))
+                    (seq 0 (length pre) ++ seq (S (length pre)) (length post)) = seq 2 (length L)).
+  { unfold L. rewrite map_app, app_length, seq_app. f_equal.
+    - rewrite <- (map_add_seq 2 0). apply map_ext_in. intros i Hi. apply in_seq in Hi.
+      destruct (Nat.ltb_spec i (length pre)); lia.
+    - replace (2 + length pre) with (S (length pre) + 1) by lia. rewrite <- map_add_seq.
+      apply map_ext_in. intros i Hi. apply in_seq in Hi. destruct (Nat.ltb_spec i (length pre)); lia. }
+  rewrite Hlegs. rewrite nvirt_nbs. fold nb_b.
+  assert (HposB : forall a, In a L -> pos_in nb_b a < length nb_b /\ pos_in nb_b a <> jb).
+  { intros a Ha. destruct (pos_in_spec nb_b a (HLB a Ha)) as (_ & H1 & H2). split; [exact H1|].
+    intros E. apply HnextL. replace next with a; [exact Ha|]. apply (pos_in_inj nb_b); auto. }
+  rewrite g_tensordot_ok.
+  2:{ rewrite !app_length, map_length, seq_length. reflexivity. }
+  2:{ intros i Hi. rewrite Hkb. cbn [length]. rewrite map_length. apply in_app_or in Hi.
+      destruct Hi as [Hi|[<-|[]]]; [apply in_seq in Hi|]; lia. }
+  2:{ intros i Hi. rewrite Hbt, app_length, map_length. cbn. apply in_app_or in Hi.
+      destruct Hi as [Hi|[<-|[]]]; [|lia]. apply in_map_iff in Hi. destruct Hi as (a & <- & Ha).
+      destruct (HposB a Ha). lia. }
+  2:{ apply NoDup_app_one. - apply seq_NoDup. - intros Hi. apply in_seq in Hi. lia. }
+  2:{ apply NoDup_app_one.
+      - apply NoDup_map_inj_in; [|exact Hnd']. intros a b Ha Hb. apply pos_in_inj; apply HLB; assumption.
+      - intros Hi. apply in_map_iff in Hi. destruct Hi as (a & E & Ha). destruct (HposB a Ha). lia. }
+  (* wires read off the two leg lists *)
+  assert (Hwa : map (fun i => nth i (gaxes kb) 0) (seq 2 (length L) ++ [1]) = map x L ++ [o]).
+  { rewrite Hkb, map_app. cbn [map nth]. f_equal.
+    pose proof (nth_seq_block 0 [wj; o] (map x L) []) as H. rewrite app_nil_r, map_length in H. exact H. }
+  assert (Hwb : map (fun i => nth i (gaxes bt) 0) (map (pos_in nb_b) L ++ [length nb_b]) = map x L ++ [p]).
+  { rewrite Hbt, map_app. cbn [map]. f_equal.
+    - rewrite map_map. apply map_ext_in. intros a Ha. destruct (pos_in_spec nb_b a (HLB a Ha)) as (_ & H1 & H2).
+      rewrite app_nth1 by (rewrite map_length; exact H1).
+      rewrite (nth_indep _ 0 (x 0)) by (rewrite map_length; exact H1). rewrite map_nth, H2. reflexivity.
+    - f_equal. rewrite <- (map_length x nb_b). apply nth_mid. }
+  rewrite Hwa, Hwb, pairs_same, pairs_diff by exact Hop.
+  eexists. split; [reflexivity|]. cbn [gaxes gatoms gbnd gglue]. split; [|auto].
+  (* the surviving axes *)
+  rewrite Hkb, Hbt.
+  rewrite (dropfrom_one 0 0 _ (wj :: o :: map x L) 0).
+  2:{ cbn. lia. }
+  2:{ intros i Hi. cbn [length] in Hi. rewrite map_length in Hi. cbn [Nat.add]. rewrite in_app_iff, in_seq. cbn [In]. lia. }
+  rewrite (dropfrom_one 0 0 _ (map x nb_b ++ [p]) jb).
+  2:{ rewrite app_length, map_length. cbn. lia. }
+  2:{ intros i Hi. rewrite app_length, map_length in Hi. cbn in Hi. cbn [Nat.add]. rewrite in_app_iff. cbn [In]. split.
+      - intros [H|[H|[]]]; [|lia]. apply in_map_iff in H. destruct H as (a & <- & Ha). apply HposB. exact Ha.
+      - intros Hne. destruct (Nat.eq_dec i (length nb_b)) as [->|Hne2]; [right; left; reflexivity|]. left.
+        assert (Hi' : i < length nb_b) by lia.
+        apply in_map_iff. exists (nth i nb_b 0). split; [apply pos_in_nth; assumption|].
+        apply in_mid_other with (x := next).
+        + apply HinB. apply nth_In. exact Hi'.
+        + intros E. apply Hne. rewrite <- (pos_in_nth nb_b i HndB Hi'). rewrite E. reflexivity. }
+  cbn [nth app]. rewrite app_nth1 by (rewrite map_length; exact Hjb).
+  rewrite (nth_indep _ 0 (x 0)) by (rewrite map_length; exact Hjb). rewrite map_nth, Hjbn. reflexivity.
 Qed.
